@@ -2,17 +2,21 @@ INIT OInit
 NEXT ONext
 CONSTANTS
   Species = {"A", "B", "C", "D"}
-  Catalog <- Cat3
+  Catalog <- Cat8
   MaxR = 2
   KVals <- K3
   Orders <- OrdOne
   FullOrder = FALSE
   Points <- Pts1
-  Feeds <- NoFeeds
+  Feeds <- Fd1
   PhaseMaps <- Ph1
-  ReKVals <- ReK
-  MaxHist = 1
-  Configs <- CfgFew
+  ReKVals <- NoReK
+  MaxHist = 0
+  NameMap <- NmIon
+  PForms <- PfPlain
+  Containers <- CtList
+  OvKVals <- Ov3
+  Configs <- CfgForms
   Comp <- CompDef
 INVARIANT FreeVsInlinedAgree
 INVARIANT ConfigOnlyChangesFreeSymbols
@@ -22,5 +26,9 @@ INVARIANT ParamsAreTheFreeSymbols
 INVARIANT UntouchedOnlyFeed
 INVARIANT RatePolyMatches
 INVARIANT OTypeOK
+INVARIANT PolyAgreesWithFold
+INVARIANT FeedExact
+INVARIANT CurrentConstantRules
+INVARIANT StoichDecomposes
 INVARIANT EmitBuild
 CHECK_DEADLOCK FALSE
